@@ -5,8 +5,8 @@
     request in the domain [P] — in particular none of the checked container accesses and none of the inner
     guards on its way fails — and returns [Exit] for every request outside [P].  The first three theorems
     spell out the two clauses of the property that follow from it. *)
-From Coq Require Import ZArith String List Bool Reals Lia.
-From LP Require Import Num NumR OrdLaws C10_Model C10_Proofs C10_Proofs_Num C10_Proofs_Block C10_Proofs_Hist C10_Proofs_Nest.
+From Coq Require Import ZArith String List Bool Reals Lia Lra.
+From LP Require Import Num NumR OrdLaws C10_Model C10_Proofs C10_Proofs_Num C10_Proofs_Block C10_Proofs_Hist C10_Proofs_Nest C10_Proofs_More.
 Import ListNotations.
 Local Open Scope Z_scope.
 
@@ -347,8 +347,28 @@ Theorem C10_factorial_history memo cs : Forall fcall_unsigned cs ->
   decides (factorial_session ROps memo cs) (Forall fcall_meaningful cs).
 Proof. exact (factorial_session_spec cs memo). Qed.
 Print Assumptions C10_factorial_history.
-(** Interpolation(x, f, x_dim, f_dim): the default (any x_dim <= 0) leaves the table as it is; with a unit x_dim > 0 the
-    converted table is again strictly increasing, `domain` is its first and last abscissa, and "outside the tabulated domain by
+(** Interpolation(x, f, x_dim, f_dim) and Interpolation(table, x_dim, f_dim): the sizes are tested on the lists as given, the abscissae are converted
+    (x_dim > 0) and "abscissae that are not strictly increasing" is judged on the CONVERTED abscissae - the ones the object stores and every later
+    request is judged against (the conversion can round two neighbours onto one double or carry the last ones to infinity: such a table is refused
+    by the constructor).  For every strictly ordered number type, rounding included. *)
+Theorem C10_interpolation_units_constructor {T} (Ops : NumOps T) (L : OrdLaws Ops) (xs : list T) nf (x_dim : T) (data : list (list T)) :
+  zlen xs < 4294967296 -> zlen data < 4294967296 ->
+  decides (guard_interpolation_units Ops xs nf x_dim) (zlen xs = nf /\ 2 <= zlen xs /\ increasing Ops (scale_units Ops x_dim xs)) /\
+  decides (guard_interpolation_table_units Ops data x_dim)
+    ((forall i, 0 <= i < zlen data -> zlen (nth (Z.to_nat i) data []) = 2) /\ 2 <= zlen data /\
+     increasing Ops (scale_units Ops x_dim (map (fun row => nth 0 row (n0 Ops)) data))).
+Proof. exact (fun H1 H2 => conj (interpolation_units_spec Ops L xs nf x_dim H1) (interpolation_table_units_spec Ops L data x_dim H2)). Qed.
+Print Assumptions C10_interpolation_units_constructor.
+(** the default unit argument (any x_dim that is not > 0, NaN included) is the constructor without units; and in exact arithmetic a unit
+    never changes the verdict: the converted table is strictly increasing iff the given one is (over R) *)
+Theorem C10_interpolation_units_default_and_exact {T} (Ops : NumOps T) (xs : list T) nf (x_dim : T) (rs : list R) (d : R) :
+  (ngtb Ops x_dim (n0 Ops) = false -> guard_interpolation_units Ops xs nf x_dim = guard_interpolation Ops xs nf) /\
+  (zlen rs < 4294967296 -> guard_interpolation_units ROps rs nf d = guard_interpolation ROps rs nf) /\
+  (increasing ROps (scale_units ROps d rs) <-> increasing ROps rs).
+Proof. exact (conj (interpolation_units_default Ops xs nf x_dim) (conj (interpolation_units_R d rs nf) (scaled_increasing_iff d rs))). Qed.
+Print Assumptions C10_interpolation_units_default_and_exact.
+(** the default (any x_dim <= 0) leaves the table as it is; with a unit x_dim > 0 the
+    converted table is again strictly increasing (over R), `domain` is its first and last abscissa, and "outside the tabulated domain by
     more than one percent of the edge interval" is judged on the converted table *)
 Theorem C10_interpolation_unit_argument (x_dim : R) (xs : list R) (x : R) : 2 <= zlen xs < 4294967296 -> increasingR xs ->
   ((x_dim <= 0)%R -> scale_units ROps x_dim xs = xs) /\
@@ -448,6 +468,117 @@ Proof.
   exact (fun H => conj (proj1 (interp_integrate_coinciding Ops xs x H)) (conj (proj2 (interp_integrate_coinciding Ops xs x H)) (local_extremum_coinciding Ops xs x H))).
 Qed.
 Print Assumptions C10_coinciding_interpolation_arguments.
+
+(** *** every kind of request on an Interpolation object, judged by Locate's domain test alone *)
+(** [icall_refused Ops xs c] (C10_Proofs_More.v): Locate / Interpolate / Derivative(x, n) of EVERY order n: Locate(x) exits; Integrate(a, b): Locate(a) or
+    Locate(b) exits; Local_Minimum/Maximum(a, b): b < a or Locate(a) or Locate(b) exits; Global_Minimum/Maximum: never; Save_Function: one of its sampling
+    points is refused.  A request exits iff it is refused in this sense and returns otherwise - there is no order of derivative, no pair of arguments and no
+    short cut for which "an interpolation argument outside the tabulated domain" is answered with a number. *)
+Theorem C10_interpolation_request_outcome {T} (Ops : NumOps T) (xs : list T) (c : icall (T := T)) : 2 <= zlen xs < 4294967296 ->
+  (icall_refused Ops xs c /\ guard_icall Ops xs c = Exit) \/ (~ icall_refused Ops xs c /\ guard_icall Ops xs c = Ok tt).
+Proof. exact (icall_outcome Ops xs c). Qed.
+Print Assumptions C10_interpolation_request_outcome.
+(** Derivative(x, n): the order n (0, 1, 2, 3 and the orders >= 4 whose answer is 0 inside the domain) plays no role in the outcome *)
+Theorem C10_derivative_every_order {T} (Ops : NumOps T) (xs : list T) (x : T) (n : Z) : 2 <= zlen xs < 4294967296 ->
+  (guard_icall Ops xs (IDeriv x n) = Exit <-> locate Ops xs x = Exit) /\
+  (guard_icall Ops xs (IDeriv x n) = Ok tt <-> locate Ops xs x <> Exit) /\
+  guard_icall Ops xs (IDeriv x n) = guard_icall Ops xs (IEval x).
+Proof. exact (derivative_every_order Ops xs x n). Qed.
+Print Assumptions C10_derivative_every_order.
+(** a sequence of requests on one object exits iff one of them is refused (sharpens C10_interpolation_request_sequence: the refusal is stated by Locate alone) *)
+Theorem C10_interpolation_sequence_refused_iff {T} (Ops : NumOps T) (xs : list T) (cs : list (icall (T := T))) : 2 <= zlen xs < 4294967296 ->
+  ((exists c, In c cs /\ icall_refused Ops xs c) /\ guard_icalls Ops xs cs = Exit) \/
+  ((forall c, In c cs -> ~ icall_refused Ops xs c) /\ guard_icalls Ops xs cs = Ok tt).
+Proof. exact (icalls_outcome Ops xs cs). Qed.
+Print Assumptions C10_interpolation_sequence_refused_iff.
+(** Interpolation_2D::Interpolate(x, y) exits iff x or y is refused by the Locate of its axis, otherwise all four corner reads are in range
+    (sharpens C10_interpolate_2d_memory_safe); a sequence of such requests on one object exits iff one of its points is refused *)
+Theorem C10_interpolate_2d_outcome {T} (Ops : NumOps T) (xs ys : list T) (x y : T) : 2 <= zlen xs < 4294967296 -> 2 <= zlen ys < 4294967296 ->
+  ((locate Ops xs x = Exit \/ locate Ops ys y = Exit) /\ guard_interpolate_2d Ops xs ys x y = Exit) \/
+  (locate Ops xs x <> Exit /\ locate Ops ys y <> Exit /\ guard_interpolate_2d Ops xs ys x y = Ok tt).
+Proof. exact (interpolate_2d_outcome Ops xs ys x y). Qed.
+Print Assumptions C10_interpolate_2d_outcome.
+Theorem C10_interpolation_2d_request_sequence {T} (Ops : NumOps T) (xs ys : list T) (pts : list (T * T)) : 2 <= zlen xs < 4294967296 -> 2 <= zlen ys < 4294967296 ->
+  ((exists p, In p pts /\ (locate Ops xs (fst p) = Exit \/ locate Ops ys (snd p) = Exit)) /\ guard_icalls_2d Ops xs ys pts = Exit) \/
+  ((forall p, In p pts -> locate Ops xs (fst p) <> Exit /\ locate Ops ys (snd p) <> Exit) /\ guard_icalls_2d Ops xs ys pts = Ok tt).
+Proof. exact (icalls_2d_outcome Ops xs ys pts). Qed.
+Print Assumptions C10_interpolation_2d_request_sequence.
+
+(** *** "an unknown integration method": a name is accepted iff it IS one of the documented strings, character by character (no prefix, no other
+    spelling, no name that merely shares a hash value or a length with a documented one); Integrate_2D / _3D accept exactly the union *)
+Theorem C10_method_names_spelled_out (m : string) :
+  (guard_integrate m = Ok tt <->
+     m = "Trapezoidal"%string \/ m = "Gauss-Legendre"%string \/ m = "Gauss-Kronrod"%string \/ m = "Tanh-Sinh"%string \/
+     m = "Gauss-Legendre_2"%string \/ m = "Adaptive-Simpson"%string) /\
+  (guard_integrate_mc m = Ok tt <-> m = "Monte-Carlo"%string \/ m = "Vegas"%string \/ m = "Miser"%string) /\
+  (guard_integrate m = Ok tt \/ guard_integrate m = Exit) /\ (guard_integrate_mc m = Ok tt \/ guard_integrate_mc m = Exit) /\
+  (guard_integrate_nd m = Ok tt <-> guard_integrate m = Ok tt \/ guard_integrate_mc m = Ok tt) /\
+  (guard_integrate_nd m = Exit <-> guard_integrate m = Exit /\ guard_integrate_mc m = Exit).
+Proof. exact (methods_spelled_out m). Qed.
+Print Assumptions C10_method_names_spelled_out.
+
+(** *** "tables that are ragged or too short", Interpolation_2D(data_table) in full (replaces the _partial statement above):
+    with x = the sorted distinct first entries and y = the sorted distinct second entries of the rows (the constructor's own std::sort / std::unique),
+    the table is accepted iff every row holds three numbers, it has |x| * |y| rows, row ix * |y| + iy holds (x[ix], y[iy], .) for all ix, iy,
+    and both x and y are strictly increasing lists of at least two numbers; otherwise the constructor exits, and no row, grid or coefficient index is
+    out of range on the way.  For every number type with a strict total order (doubles without NaN). *)
+Theorem C10_interpolation_2d_table_constructor {T} (Ops : NumOps T) (L : OrdLaws Ops) (data : list (list T)) : zlen data < 4294967296 ->
+  decides (guard_interpolation_2d_table Ops data)
+    (let x := sort_unique Ops (col0 Ops data) in
+     let y := sort_unique Ops (col1 Ops data) in
+     rows_of_three data /\ zlen x * zlen y = zlen data /\ row_major_grid Ops x y data /\
+     (2 <= zlen x /\ increasing Ops x) /\ (2 <= zlen y /\ increasing Ops y)).
+Proof. exact (interpolation_2d_table_spec Ops L data). Qed.
+Print Assumptions C10_interpolation_2d_table_constructor.
+(** "every request that is meaningful returns normally", stated without the constructor's own sorting: the full grid X x Y of two strictly increasing
+    lists of at least two numbers, written row by row with arbitrary third entries v x y, is accepted *)
+Theorem C10_interpolation_2d_table_grid_accepted {T} (Ops : NumOps T) (L : OrdLaws Ops) (v : T -> T -> T) (X Y : list T) :
+  incr_list Ops X -> incr_list Ops Y -> 2 <= zlen X -> 2 <= zlen Y -> zlen X * zlen Y < 4294967296 ->
+  guard_interpolation_2d_table Ops (grid v X Y) = Ok tt.
+Proof. exact (grid_accepted Ops L v X Y). Qed.
+Print Assumptions C10_interpolation_2d_table_grid_accepted.
+
+(** *** the whole life of an object: construction with unit arguments, then any sequence of requests.
+    Interpolation(x, f, x_dim, f_dim) followed by the requests cs ends the process iff the sizes are wrong, the CONVERTED table is not strictly increasing
+    or one of the requests is refused on the converted table; otherwise it returns, and `domain` is the first and last converted abscissa.
+    Interpolation_2D(x, y, f, x_dim, y_dim, f_dim) followed by evaluations: the same (both grids are validated after the conversion). *)
+Theorem C10_interpolation_lifetime {T} (Ops : NumOps T) (L : OrdLaws Ops) (xs : list T) nf (x_dim f_dim : T) (cs : list (icall (T := T))) : zlen xs < 4294967296 ->
+  let xs' := scale_units Ops x_dim xs in
+  let valid := zlen xs = nf /\ 2 <= zlen xs /\ increasing Ops xs' in
+  let refused := exists c, In c cs /\ icall_refused Ops xs' c in
+  ((~ valid \/ refused) /\ interp_session Ops xs nf x_dim f_dim cs = Exit) \/
+  (valid /\ ~ refused /\ interp_session Ops xs nf x_dim f_dim cs = Ok (xv Ops xs' 0, xv Ops xs' (zlen xs - 1))).
+Proof. exact (interp_session_outcome Ops L xs nf x_dim f_dim cs). Qed.
+Print Assumptions C10_interpolation_lifetime.
+Theorem C10_interpolation_2d_lifetime {T} (Ops : NumOps T) (L : OrdLaws Ops) (xs ys : list T) lens (x_dim y_dim : T) (pts : list (T * T)) :
+  zlen xs < 4294967296 -> zlen ys < 4294967296 ->
+  let xs' := scale_units Ops x_dim xs in
+  let ys' := scale_units Ops y_dim ys in
+  let valid := (zlen lens = zlen xs /\ forall i, 0 <= i < zlen lens -> nth (Z.to_nat i) lens 0 = zlen ys) /\
+               (2 <= zlen xs /\ increasing Ops xs') /\ (2 <= zlen ys /\ increasing Ops ys') in
+  let refused := exists p, In p pts /\ (locate Ops xs' (fst p) = Exit \/ locate Ops ys' (snd p) = Exit) in
+  ((~ valid \/ refused) /\ interp2d_session Ops xs ys lens x_dim y_dim pts = Exit) \/
+  (valid /\ ~ refused /\
+   interp2d_session Ops xs ys lens x_dim y_dim pts = Ok ((xv Ops xs' 0, xv Ops xs' (zlen xs - 1)), (xv Ops ys' 0, xv Ops ys' (zlen ys - 1)))).
+Proof. exact (interp2d_session_outcome Ops L xs ys lens x_dim y_dim pts). Qed.
+Print Assumptions C10_interpolation_2d_lifetime.
+
+(** non-vacuity of the new statements: a 2 x 3 table over the reals is accepted; Derivative of order 4 far outside a table is refused;
+    a name with the djb2 hash value of "Vegas" is refused *)
+Example C10_examples_more :
+  guard_interpolation_2d_table ROps (grid (fun x y => x * y)%R [0; 1]%R [0; 1; 3]%R) = Ok tt /\
+  guard_icall ROps [0; 1; 2; 4]%R (IDeriv 5%R 4) = Exit /\ guard_icall ROps [0; 1; 2; 4]%R (IDeriv 3%R 7) = Ok tt /\
+  guard_integrate_mc "Vegas" = Ok tt /\ guard_integrate_mc "WDgas" = Exit /\ guard_integrate_mc "Vegas " = Exit /\ guard_integrate "Vegas" = Exit.
+Proof.
+  split; [|split; [|split; [|repeat split; reflexivity]]].
+  - apply (C10_interpolation_2d_table_grid_accepted ROps ROps_OrdLaws); cbn; repeat split; try (apply Rltb_true; lra); unfold zlen; cbn; lia.
+  - apply (C10_derivative_every_order ROps); [unfold zlen; cbn; lia|].
+    apply C10_locate_tolerance; [unfold zlen; cbn; lia| |right; unfold zlen, xr; simpl; lra].
+    intros i Hi. unfold zlen in Hi; cbn in Hi. assert (Hc : i = 1 \/ i = 2 \/ i = 3) by lia. destruct Hc as [Hc|[Hc|Hc]]; subst i; unfold xr; simpl; lra.
+  - apply (C10_derivative_every_order ROps); [unfold zlen; cbn; lia|]. intros E.
+    apply C10_locate_tolerance in E; [unfold zlen, xr in E; simpl in E; lra|unfold zlen; cbn; lia|].
+    intros i Hi. unfold zlen in Hi; cbn in Hi. assert (Hc : i = 1 \/ i = 2 \/ i = 3) by lia. destruct Hc as [Hc|[Hc|Hc]]; subst i; unfold xr; simpl; lra.
+Qed.
 
 (** *** non-vacuity: concrete requests on both sides of guards *)
 Example C10_examples :
